@@ -42,6 +42,9 @@ def run(ck, tier):
     _whole(ck, p, byk)
 
     _untouched(ck, p, byk)
+    from . import c02, c05
+    ck.rule("R-C17-annotate", "the suffix found for a number is stored on that number's token: condense_number_suffixes does not address self.tokens after its removal with positions counted before it (rule instance of R-C02-stale after-removal) - otherwise only the first ordinal of a document keeps its suffix and a wrong suffix later in the text is never reported")
+    c02.stale_use(c05._Sub(ck, "R-C17-annotate", ""), p, "R-C17-annotate")
 
 def _table(ck, p, byk):
     rule = "R-C17-table"
